@@ -30,7 +30,7 @@ const LA: u8 = 97;
 const LB: u8 = 98;
 const LC: u8 = 99;
 const STAR: u8 = 42;
-const QTYPES: [&str; 4] = ["A", "TXT", "NS", "ANY"];
+const QTYPES: [&str; 5] = ["A", "TXT", "NS", "ANY", "SOA"];
 
 struct Shared {
     /// harness-side events (seq, json)
@@ -38,6 +38,8 @@ struct Shared {
     /// abstract content of the current version and the set of tree nodes;
     /// only touched by the thread that holds the zone's update lock
     content: Mutex<(BTreeSet<MRec>, BTreeSet<MName>)>,
+    /// the bump flag of each commit, in commit order (commits are serialised by the lock)
+    bumps: Mutex<Vec<bool>>,
 }
 
 fn log(sh: &Shared, v: Value) {
@@ -165,8 +167,20 @@ fn writer_thread(zone: domain::zonetree::Zone, sh: Arc<Shared>, idx: u64, seed: 
             }
         }
         if rng.chance(2, 3) {
+            // write-interface sessions use commit(true) half of the time
+            let bump = kind == "W" && rng.chance(3, 4);
+            if bump {
+                let committed = sh.content.lock().unwrap().0.clone();
+                let old: Vec<u64> = committed.iter().filter(|r| r.1 == "SOA").map(|r| r.2).collect();
+                let new: Vec<u64> = pending.iter().filter(|r| r.1 == "SOA").map(|r| r.2).collect();
+                if !old.is_empty() && (new.is_empty() || new == old) {
+                    pending.retain(|r| r.1 != "SOA");
+                    pending.insert((vec![], "SOA".into(), old[0] + 1));
+                }
+            }
+            sh.bumps.lock().unwrap().push(bump);
             // the commit events come from the hooks inside versions.write()
-            h.apply(&json!({"a": "CommitUpdateCurrent", "w": w}));
+            h.apply(&json!({"a": "CommitUpdateCurrent", "w": w, "bump": bump}));
             committed_any = true;
         }
         if committed_any {
@@ -201,7 +215,7 @@ fn main() {
     let mut nodes: BTreeSet<MName> = BTreeSet::new();
     nodes.insert(vec![vec![LA]]);
     nodes.insert(vec![vec![STAR]]);
-    let sh = Arc::new(Shared { log: Mutex::new(vec![]), content: Mutex::new((content, nodes)) });
+    let sh = Arc::new(Shared { log: Mutex::new(vec![]), content: Mutex::new((content, nodes)), bumps: Mutex::new(vec![]) });
 
     let _ = vt::take();
     vt::enable(true);
@@ -239,8 +253,10 @@ fn main() {
     }
     tw.event(json!({"a": "Build"}));
     let mut commits = 0;
-    for (_, v) in all {
+    let bumps = sh.bumps.lock().unwrap().clone();
+    for (_, mut v) in all {
         if v["a"] == "CommitUpdateCurrent" {
+            v["bump"] = json!(bumps.get(commits).copied().unwrap_or(false));
             commits += 1;
         }
         tw.event(v);
